@@ -186,35 +186,7 @@ def run(rep: Report, tier: str) -> None:
                       ("R19.3", "documented input formats and examples are accepted by the loader")]:
         rep.rule(rid, text)
 
-    # ---- R19.1 decision table -------------------------------------------------------------------------------
-    f = P.func(f"{VAL}.build_create_table_sql")
-    role_cls = None
-    mm = P.module("vtlengine.Model")
-    if "Role" not in mm.classes:
-        raise AnalysisError("anchor vanished: Model.Role")
-    role_members = {st.targets[0].id: st.value.value for st in mm.classes["Role"].node.body
-                    if isinstance(st, ast.Assign) and isinstance(st.value, ast.Constant)}
-    dt = "vtlengine.DataTypes"
-    for rname, rval in sorted(role_members.items()):
-        for nullable in (True, False):
-            # plain column, and a column whose storage type the loader overrides (Date -> TIMESTAMP: every Date column of a CSV file)
-            for variant, dtype_, extra in (("plain", "Integer", {}), ("type-override", "Date", {"type_overrides": {"C": "TIMESTAMP"}})):
-                comp = ExternalObj({"role": rval, "nullable": nullable, "data_type": ClassVal(f"{dt}.{dtype_}"), "name": "C"})
-                it = Interp(P)
-                try:
-                    sql = it.call(f, dict({"table_name": "T", "components": {"C": comp}}, **extra))
-                except Raised as r:
-                    raise AnalysisError(f"build_create_table_sql raised {r.exc}")
-                got = "NOT NULL" in str(sql).upper()
-                want = (rname == "IDENTIFIER") or (not nullable)
-                key = f"not-null/{rname}/{nullable}" + ("" if variant == "plain" else f"/{variant}")
-                rep.instance("R19.1", key, nontrivial=True, sample={"role": rname, "nullable": nullable, "sql": sql})
-                if variant != "plain" and "TIMESTAMP" not in str(sql).upper():
-                    raise AnalysisError(f"build_create_table_sql ignores type_overrides (`{sql}`): the override variant of R19.1 has lost its anchor")
-                if got != want:
-                    rep.add(Finding("R19.1", f"R19.1/not-null/{rname}/nullable={nullable}" + ("" if variant == "plain" else f"/{variant}"), f.module.rel, f.node.lineno, f.qualname,
-                                    f"component with role {rname}, nullable={nullable}" + ("" if variant == "plain" else " whose storage type is overridden (a Date column stored as TIMESTAMP)")
-                                    + f": column is declared {'NOT NULL' if got else 'nullable'} (`{sql}`); identifiers and non-nullable components must reject nulls, others must accept them"))
+    not_null_decision_table(P, rep, "R19.1")
     # ordering in _validate_loaded_table (helpers of the same module are followed: see _LoadEvents)
     ev = _LoadEvents(P)
     v = P.func(f"{IO}._validate_loaded_table")
@@ -394,6 +366,39 @@ def run(rep: Report, tier: str) -> None:
     rep.assumptions = ["DuckDB regexp_matches has search semantics (patterns are anchored explicitly)",
                        "the load regex is applied to the value after vtl_period_normalize (read from _validate_loaded_table)",
                        "DuckDB read_csv with an integral column type rounds fractional literals instead of rejecting them (observed once on the installed DuckDB while writing R19.4)"]
+
+
+def not_null_decision_table(P: Program, rep: Report, rule: str) -> None:
+    """build_create_table_sql evaluated over role x nullable, plain and with a storage-type override: NOT NULL iff identifier or non-nullable."""
+    # ---- R19.1 decision table -------------------------------------------------------------------------------
+    f = P.func(f"{VAL}.build_create_table_sql")
+    role_cls = None
+    mm = P.module("vtlengine.Model")
+    if "Role" not in mm.classes:
+        raise AnalysisError("anchor vanished: Model.Role")
+    role_members = {st.targets[0].id: st.value.value for st in mm.classes["Role"].node.body
+                    if isinstance(st, ast.Assign) and isinstance(st.value, ast.Constant)}
+    dt = "vtlengine.DataTypes"
+    for rname, rval in sorted(role_members.items()):
+        for nullable in (True, False):
+            # plain column, and a column whose storage type the loader overrides (Date -> TIMESTAMP: every Date column of a CSV file)
+            for variant, dtype_, extra in (("plain", "Integer", {}), ("type-override", "Date", {"type_overrides": {"C": "TIMESTAMP"}})):
+                comp = ExternalObj({"role": rval, "nullable": nullable, "data_type": ClassVal(f"{dt}.{dtype_}"), "name": "C"})
+                it = Interp(P)
+                try:
+                    sql = it.call(f, dict({"table_name": "T", "components": {"C": comp}}, **extra))
+                except Raised as r:
+                    raise AnalysisError(f"build_create_table_sql raised {r.exc}")
+                got = "NOT NULL" in str(sql).upper()
+                want = (rname == "IDENTIFIER") or (not nullable)
+                key = f"not-null/{rname}/{nullable}" + ("" if variant == "plain" else f"/{variant}")
+                rep.instance(rule, key, nontrivial=True, sample={"role": rname, "nullable": nullable, "sql": sql})
+                if variant != "plain" and "TIMESTAMP" not in str(sql).upper():
+                    raise AnalysisError(f"build_create_table_sql ignores type_overrides (`{sql}`): the override variant of R19.1 has lost its anchor")
+                if got != want:
+                    rep.add(Finding(rule, f"{rule}/not-null/{rname}/nullable={nullable}" + ("" if variant == "plain" else f"/{variant}"), f.module.rel, f.node.lineno, f.qualname,
+                                    f"component with role {rname}, nullable={nullable}" + ("" if variant == "plain" else " whose storage type is overridden (a Date column stored as TIMESTAMP)")
+                                    + f": column is declared {'NOT NULL' if got else 'nullable'} (`{sql}`); identifiers and non-nullable components must reject nulls, others must accept them"))
 
 
 def integer_csv_guard(P: Program, rep: Report, rule: str) -> None:
